@@ -96,9 +96,14 @@ impl Story {
                 );
             }
 
-            if self.get_state().diverted_pointer.is_null() && !current_divert.is_external {
-                //     error(format!("Divert resolution failed: {:?}",
-                // current_divert));
+            if self.get_state().diverted_pointer.is_null()
+                && !current_divert.is_external
+                && !current_divert.has_variable_target()
+            {
+                return Err(StoryError::InvalidStoryState(format!(
+                    "Divert resolution failed: {}",
+                    current_divert.get_target_path_string().unwrap_or_default()
+                )));
             }
 
             return Ok(true);
@@ -147,7 +152,15 @@ impl Story {
                     self.get_state().set_in_expression_evaluation(false);
                 }
                 CommandType::Duplicate => {
-                    let obj = self.get_state().peek_evaluation_stack().unwrap().clone();
+                    let obj = self
+                        .get_state()
+                        .peek_evaluation_stack()
+                        .ok_or_else(|| {
+                            StoryError::InvalidStoryState(
+                                "Nothing on the evaluation stack to duplicate.".to_owned(),
+                            )
+                        })?
+                        .clone();
                     self.get_state_mut().push_evaluation_stack(obj);
                 }
                 CommandType::PopEvaluatedValue => {
@@ -424,7 +437,15 @@ impl Story {
                         .push_evaluation_stack(Rc::new(Void::new()));
                 }
                 CommandType::VisitIndex => {
-                    let cpc = self.get_state().get_current_pointer().container.unwrap();
+                    let cpc = self
+                        .get_state()
+                        .get_current_pointer()
+                        .container
+                        .ok_or_else(|| {
+                            StoryError::InvalidStoryState(
+                                "Visit index requested outside of a container.".to_owned(),
+                            )
+                        })?;
                     let count = self.get_state_mut().visit_count_for_container(&cpc) - 1; // index
                     // not count
                     self.get_state_mut()
@@ -471,6 +492,12 @@ impl Story {
 
                     if int_val.is_none() {
                         return Err(StoryError::InvalidStoryState("Passed non-integer when creating a list element from a numerical value.".to_owned()));
+                    }
+
+                    if list_name_val.is_none() {
+                        return Err(StoryError::InvalidStoryState(
+                            "Passed non-string list name when creating a list element from a numerical value.".to_owned(),
+                        ));
                     }
 
                     let mut generated_list_value: Option<Value> = None;
@@ -555,7 +582,15 @@ impl Story {
                             });
                             let random_item = sorted[list_item_index]; // Origin list is simply the origin of the one element
                             let mut new_list = InkList::from_single_origin(
-                                random_item.0.get_origin_name().unwrap().clone(),
+                                random_item
+                                    .0
+                                    .get_origin_name()
+                                    .ok_or_else(|| {
+                                        StoryError::InvalidStoryState(
+                                            "List item without an origin list".to_owned(),
+                                        )
+                                    })?
+                                    .clone(),
                                 self.list_definitions.as_ref(),
                             )?;
                             new_list.items.insert(random_item.0.clone(), *random_item.1);
@@ -675,9 +710,11 @@ impl Story {
             let found_value: Rc<Value>; // Explicit read count value
             if var_ref.path_for_count.is_some() {
                 let container = var_ref.get_container_for_count();
-                let count = self
-                    .get_state_mut()
-                    .visit_count_for_container(container.as_ref().unwrap());
+                let count = self.get_state_mut().visit_count_for_container(
+                    container
+                        .as_ref()
+                        .map_err(|e| StoryError::InvalidStoryState(e.clone()))?,
+                );
                 found_value = Rc::new(Value::new::<i32>(count));
             }
             // Normal variable reference
@@ -707,7 +744,7 @@ impl Story {
         {
             let func_params = self
                 .get_state_mut()
-                .pop_evaluation_stack_multiple(func.get_number_of_parameters());
+                .pop_evaluation_stack_multiple(func.get_number_of_parameters())?;
             let result = func.call(func_params)?;
             self.get_state_mut().push_evaluation_stack(result);
             return Ok(true);
